@@ -425,14 +425,17 @@ def run_unit(job):
             async def downloadPackage(self, step, buildId, audit, content, caches=[], executor=None):
                 ops.append(["download", buildId.hex()])
                 a = c["archive"]
-                if a == "missing":
+                if a == "missing" or not self.canDownload():
                     return False
-                if a == "error":
-                    raise BuildError("Cannot download artifact: injected")
                 shutil.rmtree(content, ignore_errors=True)
                 if os.path.lexists(audit):
                     os.unlink(audit)
                 os.makedirs(content)
+                if a == "error":
+                    # extraction fails half way: partial content stays
+                    with open(os.path.join(content, "data"), "w") as f:
+                        f.write("junk")
+                    raise BuildError("Cannot download artifact: injected")
                 with open(os.path.join(content, "data"), "w") as f:
                     f.write(a["content"])
                 if a["audit"]:
@@ -549,6 +552,9 @@ def run_unit(job):
                         else "layer-forced" if "of layer" in s else "forced" if "Downloading artifact failed" in s
                         else "transport" if "injected" in s else "other:" + s)
                 ret = {"error": kind}
+            except (OSError, ValueError, KeyError, AttributeError) as e:
+                # the implementation stumbled over the artifact in another way: still a rejection
+                ret = {"error": "exception:" + type(e).__name__}
             for n in origs:
                 setattr(cls, n, origs[n])
             origs = {}
